@@ -210,3 +210,91 @@ def desugar_partials(tree: ast.Module) -> int:
             st.value = ast.copy_location(ast.Constant(value=None), call)  # the partial object itself is now dead
             count += 1
     return count
+
+
+# ------------------------------------------------------------------ a record of settings held in one field
+
+def _record_classes(tree: ast.Module) -> dict[str, list[str]]:
+    """NamedTuple / frozen-or-plain dataclass classes of this module without methods that could intercept field
+    access -> field names in order"""
+    out: dict[str, list[str]] = {}
+    for c in tree.body:
+        if not isinstance(c, ast.ClassDef):
+            continue
+        is_nt = any(ast.unparse(b).split(".")[-1] == "NamedTuple" for b in c.bases)
+        is_dc = any(ast.unparse(d).split("(")[0].split(".")[-1] == "dataclass" for d in c.decorator_list)
+        if not (is_nt or is_dc):
+            continue
+        if any(isinstance(st, (ast.FunctionDef, ast.AsyncFunctionDef)) and st.name in ("__init__", "__new__", "__post_init__", "__getattribute__", "__getattr__", "__setattr__") for st in c.body):
+            continue
+        fields = [st.target.id for st in c.body if isinstance(st, ast.AnnAssign) and isinstance(st.target, ast.Name)]
+        members = {st.name for st in c.body if isinstance(st, (ast.FunctionDef, ast.AsyncFunctionDef))}
+        if fields and not (members & set(fields)):
+            out[c.name] = fields
+    return out
+
+
+def flatten_settings_records(module_name: str, tree: ast.Module) -> dict[str, dict[str, str]]:
+    """`self._settings = _Settings(...)` (or a helper of this module declared to return one) bound once in `__init__`
+    and only ever read as `self._settings.<field>`: each such read is the read of a field of the object itself.
+
+    For the classes whose private fields the rules name (FIELD_ROLES) the record's fields are mapped onto those names
+    (`self._settings.window_s` -> `self._window_s`) and `__init__` gets the equivalent stores
+    (`self._window_s = self._settings.window_s`) right after the record is bound - an immutable record read through
+    one never-rebound field is the same value either way."""
+    done: dict[str, dict[str, str]] = {}
+    recs = _record_classes(tree)
+    if not recs:
+        return done
+    returns = {f.name: ast.unparse(f.returns).strip("'\"") for f in tree.body if isinstance(f, ast.FunctionDef) and f.returns is not None}
+    for cls in [n for n in tree.body if isinstance(n, ast.ClassDef)]:
+        qual = f"{module_name}:{cls.name}"
+        if qual not in FIELD_ROLES:
+            continue
+        canon = FIELD_ROLES[qual]
+        init = next((st for st in cls.body if isinstance(st, ast.FunctionDef) and st.name == "__init__"), None)
+        if init is None:
+            continue
+        selfn = init.args.args[0].arg if init.args.args else "self"
+        stores = [n for n in ast.walk(cls) if isinstance(n, ast.Attribute) and isinstance(n.ctx, (ast.Store, ast.Del)) and isinstance(n.value, ast.Name)]
+        for i, st in enumerate(list(init.body)):
+            tgt = val = None
+            if isinstance(st, ast.Assign) and len(st.targets) == 1:
+                tgt, val = st.targets[0], st.value
+            elif isinstance(st, ast.AnnAssign) and st.value is not None:
+                tgt, val = st.target, st.value
+            if not (isinstance(tgt, ast.Attribute) and isinstance(tgt.value, ast.Name) and tgt.value.id == selfn and isinstance(val, ast.Call) and isinstance(val.func, ast.Name)):
+                continue
+            S = tgt.attr
+            rname = val.func.id if val.func.id in recs else returns.get(val.func.id)
+            if rname not in recs or S in canon:
+                continue
+            if sum(1 for n in stores if n.attr == S) != 1:
+                continue  # re-bound somewhere: not a constant of the object
+            fields = recs[rname]
+            mapping = {f: "_" + f for f in fields if "_" + f in canon}
+            if not mapping:
+                continue
+            bound_elsewhere = {n.attr for n in stores}
+            if any(m in bound_elsewhere for m in mapping.values()):
+                continue
+            # every use of self.S is a read of one of its fields
+            uses = [n for n in ast.walk(cls) if isinstance(n, ast.Attribute) and n.attr == S and isinstance(n.value, ast.Name) and isinstance(n.ctx, ast.Load)]
+            parents = {id(n.value): n for n in ast.walk(cls) if isinstance(n, ast.Attribute) and isinstance(n.value, ast.Attribute)}
+            if not all(id(u) in parents and parents[id(u)].attr in fields and isinstance(parents[id(u)].ctx, ast.Load) for u in uses):
+                continue
+            for u in uses:
+                par = parents[id(u)]
+                if par.attr in mapping:
+                    par.value = ast.copy_location(ast.Name(id=u.value.id, ctx=ast.Load()), u)
+                    par.attr = mapping[par.attr]
+            extra = []
+            for f, c in mapping.items():
+                a = ast.Assign(targets=[ast.Attribute(value=ast.Name(id=selfn, ctx=ast.Load()), attr=c, ctx=ast.Store())], value=ast.Attribute(value=ast.Attribute(value=ast.Name(id=selfn, ctx=ast.Load()), attr=S, ctx=ast.Load()), attr=f, ctx=ast.Load()))
+                ast.copy_location(a, st)
+                ast.fix_missing_locations(a)
+                extra.append(a)
+            pos = init.body.index(st)
+            init.body[pos + 1 : pos + 1] = extra
+            done.setdefault(qual, {}).update({f"{S}.{f}": c for f, c in mapping.items()})
+    return done
